@@ -406,6 +406,14 @@ class _Expr(SymEval):
                 vals = {nm: None for nm in names}
                 vals.update(dict(zip(names, args)))
                 vals.update(kw)
+                # attrs converters that turn sequences into arrays (convert_array_to(...)) are applied
+                for nm, st_ in ci.fields.items():
+                    v_ = vals.get(nm)
+                    if isinstance(v_, (list, tuple)) and st_ is not None and any(isinstance(x, ast.Call) and getattr(x.func, "id", "") == "convert_array_to" for x in ast.walk(st_)):
+                        if any(isinstance(e_, (Sym, np.ndarray)) and (isinstance(e_, Sym) or e_.dtype == object) for e_ in v_):
+                            vals[nm] = np.array(list(v_), dtype=object)
+                        else:
+                            vals[nm] = np.array(v_)
                 return Rec(ci, **vals)
         if isinstance(f, ast.Name):
             if f.id == "abs" and len(n.args) == 1:
